@@ -136,15 +136,17 @@ theorem C01_every_matching_handler_without_a_result_is_selected (w : World) (b :
 
 /-- **C01**: … and beginning the activation creates a (pending) result for each selected handler and puts exactly these
     handlers on the activation's to-do list (which `C01_activation_ends_only_when_every_selected_handler_finished` requires
-    to be worked off before the activation ends). -/
+    to be worked off before the activation ends) and in its ghost list `sel` of selected handlers, which never changes
+    afterwards and which the no-skip invariant (`Proofs/NoSkip.lean`) speaks about. -/
 theorem C01_begin_lists_exactly_the_selected_handlers (w : World) (p : Proc) (b : BId) (e : EId) :
     let w1 := peEnter w p b
-    ∃ A, (apply w (.peBegin p b e)).act p = some A ∧ A.todo = applicable w1 b e ∧ A.bus = b ∧ A.ev = e ∧ A.running = [] := by
+    ∃ A, (apply w (.peBegin p b e)).act p = some A ∧ A.todo = applicable w1 b e ∧ A.sel = applicable w1 b e ∧
+      A.bus = b ∧ A.ev = e ∧ A.running = [] := by
   intro w1
   have hm : ∀ (w : World) (x : EId), (markComplete w x).act = w.act := by
     intro w x; unfold markComplete; simp only []; repeat' split
     all_goals simp
-  refine ⟨{ bus := b, ev := e, todo := applicable w1 b e, running := [], sel := applicable w1 b e }, ?_, rfl, rfl, rfl, rfl⟩
+  refine ⟨{ bus := b, ev := e, todo := applicable w1 b e, running := [], sel := applicable w1 b e }, ?_, rfl, rfl, rfl, rfl, rfl⟩
   simp only [apply, apply0, wake_act, peOpen]
   split <;> simp [hm, w1]
 
